@@ -22,7 +22,8 @@ def families(tier):
             if k % 2:
                 d["alpha"]["extras"] = sorted(set(d["alpha"]["extras"]) | {"help", "ver"})
                 D.trim_to_budget(d, bud)
-    return fam
+    # an attached value may be empty (`--name=`): still one occurrence, wherever it stands
+    return fam + D.edge_family(SEED + 33, 9 if tier == "quick" else 27, maxlen=3)
 
 
 def gen(rnd, d):
